@@ -183,6 +183,16 @@ def run(tier):
                                      {**ident, "class": cname, "gradient_float": gf, "gradient_integer": gi}, site=f"{cname}.gradient:dtype")
             import copy as _copy
             for cname, obj in objs:
+                # a result handed out earlier is the caller's: it does not change when the object is called again
+                with np.errstate(all="ignore"):
+                    g_first = obj.gradient(theta)
+                    keep_ = np.array(g_first, dtype=float).copy()
+                    obj.gradient(theta + 0.5)
+                    obj.cost_gradient(theta - 0.25)
+                if not np.array_equal(np.asarray(g_first, dtype=float), keep_, equal_nan=True):
+                    ck.violation("a gradient returned earlier does not change when the object is evaluated again at another point",
+                                 {**ident, "class": cname, "returned_first": keep_, "same_array_later": np.asarray(g_first, dtype=float)},
+                                 site=f"{cname}.gradient:returned-buffer")
                 th_ = theta.copy()
                 ref_ = _copy.deepcopy(obj)           # (the reference values come from a copy that is called only once)
                 with np.errstate(all="ignore"):
@@ -260,7 +270,14 @@ def run(tier):
                     return s
                 joint.sample = logged
                 ng, ns = (3, 7) if len(events) % 3 else (4, 4)        # also as many guesses as draws: all of them, still in increasing cost
-                guesses = post.generate_initial_guesses(n_guesses=ng, prior_samples=ns)
+                try:
+                    guesses = post.generate_initial_guesses(n_guesses=ng, prior_samples=ns)
+                except Exception as ex:
+                    ck.violation("generate_initial_guesses raised", {**ident, "n_guesses": ng, "prior_samples": ns, "error": repr(ex)[:200]},
+                                 site="Posterior.generate_initial_guesses")
+                    joint.sample = orig
+                    fake.vary = False
+                    continue
                 costs = [float(post.cost(s)) for s in drawn]
                 if len(set(costs)) == len(costs) and len(drawn) == ns:
                     ranks = [int(x) + 1 for x in np.argsort(np.argsort(costs))]
